@@ -182,3 +182,69 @@ Proof.
   - intros H1 H2 H3. apply Nat.eqb_eq in H1. rewrite H1. cbn [negb]. apply Nat.eqb_neq in H2. rewrite H2.
     destruct vals as [|x [|y vals]]; try reflexivity. now cbn [length] in H3.
 Qed.
+
+(* ---------- what the counters count ---------- *)
+Fixpoint ssorted (l : list Z) : Prop :=
+  match l with
+  | [] => True
+  | x :: r => Forall (Z.lt x) r /\ ssorted r
+  end.
+
+Lemma insert_uniq_sorted k l :
+  ssorted l ->
+  ssorted (insert_uniq Z.compare k l) /\
+  (forall y, Forall (Z.lt y) l -> y < k -> Forall (Z.lt y) (insert_uniq Z.compare k l)).
+Proof.
+  induction l as [|x r IH]; intros Hs; cbn [insert_uniq].
+  - split; [cbn [ssorted]; auto|]. intros y _ Hy. constructor; [exact Hy|constructor].
+  - destruct Hs as [Hx Hr]. destruct (IH Hr) as [IH1 IH2].
+    destruct (k ?= x) eqn:E.
+    + split; [split; assumption|]. intros y Hy _. exact Hy.
+    + rewrite Z.compare_lt_iff in E. split.
+      * cbn [ssorted]. split; [|split; assumption].
+        constructor; [exact E|]. eapply Forall_impl; [|exact Hx]. intros a Ha. lia.
+      * intros y Hy Hyk. constructor; [exact Hyk|exact Hy].
+    + rewrite Z.compare_gt_iff in E. split.
+      * cbn [ssorted]. split; [|exact IH1]. apply IH2; [exact Hx|exact E].
+      * intros y Hy Hyk. inversion Hy as [|? ? Hyx Hyr]; subst. constructor; [exact Hyx|]. now apply IH2.
+Qed.
+
+Lemma sort_uniq_sorted l : ssorted (sort_uniq Z.compare l).
+Proof.
+  unfold sort_uniq. induction l as [|a l IH]; cbn [fold_right]; [exact I|]. now apply insert_uniq_sorted.
+Qed.
+
+Lemma ssorted_NoDup l : ssorted l -> NoDup l.
+Proof.
+  induction l as [|x r IH]; intros Hs; [constructor|]. destruct Hs as [Hx Hr]. constructor; [|now apply IH].
+  intros Hin. rewrite Forall_forall in Hx. specialize (Hx x Hin). lia.
+Qed.
+
+Theorem unique_plate_ids_spec s :
+  NoDup (unique_plate_ids s) /\ forall pid, In pid (unique_plate_ids s) <-> In pid (s_pids s).
+Proof.
+  split; [apply ssorted_NoDup, sort_uniq_sorted|].
+  intros pid. apply In_sort_uniq. intros a b. apply Z.compare_eq.
+Qed.
+
+Theorem newly_revealed_spec s ids :
+  NoDup (newly_revealed s ids) /\
+  forall pid, In pid (newly_revealed s ids) <-> (In pid (s_pids s) /\ In pid ids /\ plate_observed s pid = false).
+Proof.
+  unfold newly_revealed. split.
+  - apply NoDup_filter. apply unique_plate_ids_spec.
+  - intros pid. rewrite filter_In, (proj2 (unique_plate_ids_spec s) pid), andb_true_iff, negb_true_iff.
+    unfold mem_Z. rewrite existsb_exists. split.
+    + intros (H1 & H2 & x & Hx & He). apply Z.eqb_eq in He. subst x. auto.
+    + intros (H1 & H2 & H3). repeat split; auto. exists pid. split; [exact H2|apply Z.eqb_refl].
+Qed.
+
+Theorem plate_observed_spec s pid :
+  plate_observed s pid = true <->
+  (forall r, In (r, pid) (combine (s_rows s) (s_pids s)) -> r_mask r = true).
+Proof.
+  unfold plate_observed. rewrite forallb_forall. split.
+  - intros H r Hin. specialize (H (r, pid) Hin). cbn [fst snd] in H. rewrite Z.eqb_refl in H. exact H.
+  - intros H [r p] Hin. cbn [fst snd]. destruct (p =? pid) eqn:E; [|reflexivity].
+    apply Z.eqb_eq in E. subst p. cbn [negb orb]. now apply H.
+Qed.
